@@ -8,6 +8,12 @@ From Okv Require Import Model.Golden.
 Import ListNotations.
 Open Scope N_scope.
 
+(* Long texts are written by the harness in a lossless run-length form (coq::bytes_term): the
+   text is the concatenation of `unit` repeated `count` times, segment after segment.
+   Evaluation glue only; every comparison below is made on the expanded text. *)
+Definition RLE (segs : list (N * text)) : text :=
+  flat_map (fun '(n, u) => N.iter n (fun acc => u ++ acc) []) segs.
+
 Record obs := {
   o_new : N;              (* 0 Ok | 1 Err NotFound | 2 Err of another kind | 3 panic *)
   o_file1 : option text;  (* bytes at the path after Golden::new (None: nothing there) *)
